@@ -29,6 +29,7 @@ from slimta.smtp.reply import Reply
 edge_wsgi.PtrLookup = sm._InertPtr
 
 ID = 'C06'
+REALTIME = True      # runs on the wall clock: an unreproducible failure is re-run before it counts (see runner)
 LEVEL = 'exploration'
 RULE = ('Hypothesis envelopes (null / dot-atom / quoted local parts with space < > @ and quoted-pairs / UTF-8 senders and 1..5 recipients, '
         'well-formed header blocks from the C20 generator, arbitrary bodies) sent by the real StaticSmtpRelay to the real SmtpEdge over a '
